@@ -520,6 +520,27 @@ pub fn mutate(rng: &mut Rng, s: &mut Vec<Vec<Vec<u8>>>, extreme_bias: bool) -> &
             }
             "varint-inflate"
         }
+        8 if total > 0 && rng.bool() => {
+            // valid multi-byte text in an unexpected place (start of a datagram, or instead of a separator)
+            let at_start = rng.bool();
+            let off = if at_start { 0 } else { rng.usize(0, total - 1) };
+            let (c, j, k) = if at_start {
+                let cands: Vec<(usize, usize)> = s.iter().enumerate().flat_map(|(c, ds)| ds.iter().enumerate().filter(|(_, d)| !d.is_empty()).map(move |(j, _)| (c, j))).collect();
+                let (c, j) = *rng.pick(&cands);
+                (c, j, 0)
+            } else {
+                locate(s, off).unwrap_or((0, 0, 0))
+            };
+            if !s.is_empty() && c < s.len() && j < s[c].len() && k < s[c][j].len() {
+                let ch: Vec<u8> = rng.pick(&["é", "€", "😀", "ß", "中"]).as_bytes().to_vec();
+                if rng.bool() {
+                    s[c][j].splice(k ..= k, ch);
+                } else {
+                    s[c][j].splice(k .. k, ch);
+                }
+            }
+            "utf8-multibyte"
+        }
         8 if total > 0 => {
             // invalid text: lone surrogate / overlong / stray continuation
             let off = rng.usize(0, total - 1);
